@@ -9,7 +9,6 @@ package c02
 import (
 	"fmt"
 	"iter"
-	"reflect"
 	"sort"
 	"strconv"
 	"strings"
@@ -112,7 +111,7 @@ func eqValFor(name string) func(a, b int) bool {
 
 type tabObj[K comparable] struct {
 	cfg tcfg
-	t   symboltable.SymbolTable[K, int]
+	t   tbl[K]
 	eq  func(a, b int) bool
 	orc map[K]int
 	del map[K]bool // keys deleted at least once and currently absent
@@ -143,49 +142,6 @@ const (
 	phDone
 	phBroken
 )
-
-// fastM reads the capacity field of a table without building a snapshot of its slots (-1: no such field).
-func fastM(t any) (m int) {
-	m = -1
-	defer func() {
-		if recover() != nil {
-			m = -1
-		}
-	}()
-	v := reflect.ValueOf(t)
-	if v.Kind() != reflect.Pointer || v.IsNil() {
-		return -1
-	}
-	f := v.Elem().FieldByName("m")
-	if !f.IsValid() || !f.CanInt() {
-		return -1
-	}
-	return int(f.Int())
-}
-
-func capOf[K comparable](t symboltable.SymbolTable[K, int]) int {
-	if m := fastM(t); m >= 0 {
-		return m
-	}
-	st, _ := symboltable.VerifHashSlots(t)
-	return st.M
-}
-
-func sizeOf[K comparable](t symboltable.SymbolTable[K, int]) int {
-	n := -1
-	func() {
-		defer func() { recover() }()
-		f := reflect.ValueOf(t).Elem().FieldByName("n")
-		if f.IsValid() && f.CanInt() {
-			n = int(f.Int())
-		}
-	}()
-	if n >= 0 {
-		return n
-	}
-	st, _ := symboltable.VerifHashSlots(t)
-	return st.N
-}
 
 func joinInts(xs []int) string {
 	ss := make([]string, len(xs))
@@ -242,7 +198,14 @@ func execTables[K comparable](c hx.Case, mode Mode, kc *keyCodec[K]) hx.Result {
 	}
 
 	symboltable.VerifSetShuffleSeed(seed)
-	eqK := func(a, b K) bool { return a == b }
+	ktype, vtype := hx.HeaderGet(c.Header, "ktype"), hx.HeaderGet(c.Header, "vtype")
+	if ktype != "" {
+		tags["ktype="+ktype] = true
+	}
+	if vtype != "" {
+		tags["vtype="+vtype] = true
+	}
+	pp := &ptrPool{m: map[int]*int{}}
 	tabs := make([]*tabObj[K], len(cfgs))
 	allValid := true
 	kind := hx.Try(func() {
@@ -255,19 +218,8 @@ func execTables[K comparable](c hx.Case, mode Mode, kc *keyCodec[K]) hx.Result {
 				allValid = false
 			}
 			opts := symboltable.HashOpts{InitialCap: cf.cap, MinLoadFactor: parseLF(cf.minlf), MaxLoadFactor: parseLF(cf.maxlf)}
-			h := kc.hashFor(cf.hash, eff)
 			eq := eqValFor(cf.eqv)
-			var t symboltable.SymbolTable[K, int]
-			switch cf.comp {
-			case "chain":
-				t = symboltable.NewChainHashTable[K, int](h, eqK, eq, opts)
-			case "linear":
-				t = symboltable.NewLinearHashTable[K, int](h, eqK, eq, opts)
-			case "quadratic":
-				t = symboltable.NewQuadraticHashTable[K, int](h, eqK, eq, opts)
-			default:
-				t = symboltable.NewDoubleHashTable[K, int](h, eqK, eq, opts)
-			}
+			t := kc.newTable(cf.comp, ktype, vtype, cf.hash, eff, eq, opts, pp)
 			tabs[i] = &tabObj[K]{cfg: cf, t: t, eq: eq, orc: map[K]int{}, del: map[K]bool{}}
 		}
 	})
@@ -345,20 +297,20 @@ func execTables[K comparable](c hx.Case, mode Mode, kc *keyCodec[K]) hx.Result {
 	probeCheck := func(i int, op string, tb *tabObj[K], key K, inWatchdog bool) (g, fd int) {
 		if inWatchdog {
 			g, fd = -1, -1
-			hx.Try(func() { g, fd = symboltable.VerifProbes(tb.t, key, 4*capOf(tb.t)+4) })
+			hx.Try(func() { g, fd = tb.t.Probes(key, 4*tb.t.Cap()+4) })
 		} else {
-			g, fd = safeProbesM(tb.t, key, capOf(tb.t), mode.Watchdog)
+			g, fd = safeProbesM(tb.t, key, tb.t.Cap(), mode.Watchdog)
 		}
 		if g >= 3 || fd >= 3 {
 			longWalk = true
 		}
 		if mode.ProbeBound {
-			bound := capOf(tb.t)
+			bound := tb.t.Cap()
 			if tb.cfg.comp == "chain" {
-				bound = sizeOf(tb.t)
+				bound = tb.t.Len()
 			}
 			if g < 0 || fd < 0 || g > bound || fd > bound {
-				bad(i, "%s: probe walk of %s get=%d find=%d exceeds the bound %d (m=%d n=%d)", op, kc.show(key), g, fd, bound, capOf(tb.t), sizeOf(tb.t))
+				bad(i, "%s: probe walk of %s get=%d find=%d exceeds the bound %d (m=%d n=%d)", op, kc.show(key), g, fd, bound, tb.t.Cap(), tb.t.Len())
 			}
 		}
 		return
@@ -471,7 +423,7 @@ func execTables[K comparable](c hx.Case, mode Mode, kc *keyCodec[K]) hx.Result {
 			// Put is always executed (it may re-hash before it probes).
 			if HangsObserved > 0 && ((f[0] == "get" && g == -1) || (f[0] == "delete" && fd == -1)) {
 				res.Outs = append(res.Outs, "hang")
-				bad(i, "%s would not return: its probe walk does not stop within %d steps", op, 4*capOf(tb.t)+4)
+				bad(i, "%s would not return: its probe walk does not stop within %d steps", op, 4*tb.t.Cap()+4)
 				tags["hang"] = true
 				tags["hang-predicted"] = true
 				break
@@ -572,7 +524,7 @@ func execTables[K comparable](c hx.Case, mode Mode, kc *keyCodec[K]) hx.Result {
 						return
 					}
 					a, bb := tabs[x], tabs[y]
-					e := a.t.Equal(bb.t)
+					e := a.t.EqualTo(bb.t)
 					out = "ok " + strconv.FormatBool(e)
 					// Equal starts with a type assertion: tables of different implementations are never equal;
 					// otherwise the two maps hold the same keys and the receiver's eqVal relates the values
@@ -599,9 +551,9 @@ func execTables[K comparable](c hx.Case, mode Mode, kc *keyCodec[K]) hx.Result {
 						tags["equal-different-parameters"] = true
 					}
 				case "dump":
-					out = "ok " + kc.dump(tb.t)
+					out = "ok " + dumpOf(tb.t, kc)
 				case "probes":
-					g, fd := safeProbesM(tb.t, key(), capOf(tb.t), mode.Watchdog)
+					g, fd := safeProbesM(tb.t, key(), tb.t.Cap(), mode.Watchdog)
 					out = fmt.Sprintf("ok get=%d find=%d", g, fd)
 				case "seq":
 					newSeq(b)
@@ -799,9 +751,9 @@ func execTables[K comparable](c hx.Case, mode Mode, kc *keyCodec[K]) hx.Result {
 					a, n, st := arg(1), arg(2), arg(3)
 					keyAt := func(c int) K { return kc.ofInt(a + c*st) }
 					var caps []int
-					m := capOf(tb.t)
+					m := tb.t.Cap()
 					noteCap := func() {
-						if m2 := capOf(tb.t); m2 != m {
+						if m2 := tb.t.Cap(); m2 != m {
 							if m2 > m {
 								tags["resize-grow"] = true
 							} else {
@@ -881,14 +833,14 @@ func execTables[K comparable](c hx.Case, mode Mode, kc *keyCodec[K]) hx.Result {
 						out = fmt.Sprintf("ok hit=%d sum=%d", hit, sum)
 					case "probesn":
 						mg, mf, sg, sf, broken := 0, 0, 0, 0, false
-						lim := 4*capOf(tb.t) + 4
-						bound := capOf(tb.t)
+						lim := 4*tb.t.Cap() + 4
+						bound := tb.t.Cap()
 						if tb.cfg.comp == "chain" {
-							bound = sizeOf(tb.t)
+							bound = tb.t.Len()
 						}
 						for c := 0; c < n; c++ {
 							k := keyAt(c)
-							g, fd := symboltable.VerifProbes(tb.t, k, lim)
+							g, fd := tb.t.Probes(k, lim)
 							if g < 0 || fd < 0 {
 								broken = true
 							}
@@ -977,10 +929,10 @@ var HangsObserved int
 
 // safeProbesM measures the probe walks of key through the hook (m = the capacity, for the step limit); a walk
 // that panics (an index outside the allocated slots) or does not come back counts as -1.
-func safeProbesM[K comparable](t symboltable.SymbolTable[K, int], key K, m int, watchdog time.Duration) (g, fd int) {
+func safeProbesM[K comparable](t tbl[K], key K, m int, watchdog time.Duration) (g, fd int) {
 	g, fd = -1, -1
 	hx.WithTimeout(watchdog, func() {
-		hx.Try(func() { g, fd = symboltable.VerifProbes(t, key, 4*m+4) })
+		hx.Try(func() { g, fd = t.Probes(key, 4*m+4) })
 	})
 	return
 }
